@@ -101,11 +101,14 @@ class Frame(Tok):
     def __init__(self, parent, label=None):
         Frame.n += 1
         Tok.__init__(self, "frame", label or "f%d" % Frame.n, parent=parent)
+        self.defs = machine.Map()          # what `define` has put into this frame during the run (name -> value)
 
     def field_view(self, e):
         """what a direct read of a field of the scope sees (code that walks the chain itself instead of calling a method)"""
         if e.get("name") == "parent":
             return some(self.parent) if self.parent is not None else none()
+        if e.get("name") == "definitions":
+            return self.defs
         return absint.UNKNOWN
 
 
@@ -244,6 +247,8 @@ class Run:
             return fr
         if c == SCOPE + "define":
             self.events.append(("define", a0, a[1], a[2]))
+            if isinstance(a0, Frame):
+                a0.defs.d[machine.key_of(a[1])] = (a[1], a[2])
             return []
         if c == SCOPE + "set":
             self.events.append(("set", a0, a[1], a[2]))
@@ -365,8 +370,15 @@ def assignment_table(w):
     return rows
 
 
-def lambda_table(w):
-    env = Frame(None, "creation-env")
+def lambda_table(w, shape="root"):
+    """a lambda expression evaluated in (root) a frame without parent, (empty-frame) a frame that binds nothing yet — the frame of a
+    thunk, a `begin` body, a procedure whose internal definitions come later — under a parent that binds something, (bound-frame) a
+    frame with a binding under such a parent: the closure captures THAT frame"""
+    outer = Frame(None, "enclosing-env")
+    outer.defs.d["g"] = ("g", Tok("value", "G"))
+    env = Frame(None, "creation-env") if shape == "root" else Frame(outer, "creation-env")
+    if shape == "bound-frame":
+        env.defs.d["v"] = ("v", Tok("value", "V"))
     sp = w.scheme_procedure(w.formals(["a"]), [], [w.sym("B")])
     expr = w.lam(sp)
     r = Run(w)
@@ -838,13 +850,16 @@ def rule_lambda(ctx, rule):
     fb = ctx.fb()
     t = tables(fb)
     w = t["w"]
-    d = t["lambda"]
     v = Verdict(ctx, rule, mir_where(w.ee))
-    v.row("lambda/capture", d, [
-        (d.get("captures_creation_env"), "a lambda expression does not capture the environment it is evaluated in (by reference)"),
-        (d.get("same_code"), "the closure's code is not the lambda expression's"),
-        (d.get("new_frames") == 0, "evaluating a lambda expression creates a frame (the environment must be shared, not copied)"),
-    ])
+    for shape in ("root", "empty-frame", "bound-frame"):
+        d = t["lambda"] if shape == "root" else lambda_table(w, shape)
+        where_txt = {"root": "", "empty-frame": " (a frame that binds nothing yet, under a frame that does: definitions made in it later must be "
+                                                "visible to the closure)", "bound-frame": " (a frame with a binding, under another)"}[shape]
+        v.row("lambda/capture" + ("" if shape == "root" else "/" + shape), d, [
+            (d.get("captures_creation_env"), "a lambda expression does not capture the environment it is evaluated in%s" % where_txt),
+            (d.get("same_code"), "the closure's code is not the lambda expression's"),
+            (d.get("new_frames") == 0, "evaluating a lambda expression creates a frame (the environment must be shared, not copied)"),
+        ])
     return v.decided
 
 
